@@ -1675,6 +1675,18 @@ impl SysComp {
                         if !reset[u] && (!c.is_schedulable() || c.is_timed_out(now) || c.stall_gated || !c.connected) {
                             mon.fail("C04", "sys-ineligible-route", format!("datagram #{tag} routed to link {} (schedulable={} timed_out={} gated={} connected={})", c.conn_id, c.is_schedulable(), c.is_timed_out(now), c.stall_gated, c.connected));
                         }
+                        // "not timed out" judged by what the harness actually delivered, not by the implementation's
+                        // own predicate: nothing has arrived on the chosen uplink for longer than every timeout
+                        // configured so far
+                        if !reset[u] {
+                            if let Some(h) = g.heard_at.get(&c.conn_id) {
+                                if now.saturating_sub(*h) > g.max_cto {
+                                    mon.fail("C04", "sys-routed-to-silent-link", format!("datagram #{tag} routed to link {} at {now} although nothing has arrived on that uplink since {h} ({} ms > every configured timeout <= {} ms); the link reports timed_out={}", c.conn_id, now - h, g.max_cto, c.is_timed_out(now)));
+                                } else {
+                                    mon.count("routed-to-recently-heard-link");
+                                }
+                            }
+                        }
                         // C10: classic mode, guard off = the reference algorithm
                         if cfg.mode.is_classic() && !cfg.stall_deselect {
                             let mut best: Option<usize> = None;
